@@ -357,6 +357,25 @@ func (cs *clientScen) cleanSeedSince(t int64, healthy []string) string {
 	return ""
 }
 
+// everyCleanSeedFailedADialBefore: each seed that answered throughout the call had refused (or timed out) a dial
+// of this client at some earlier time, i.e. the client had had a reason to set it aside.
+func (cs *clientScen) everyCleanSeedFailedADialBefore(t int64, healthy []string) bool {
+	cs.cl.mu.Lock()
+	defer cs.cl.mu.Unlock()
+	n := 0
+	for _, a := range healthy {
+		for _, b := range cs.cl.brokers {
+			if b.addr == a && b.up && !b.blackhole && b.dirtyUs < t {
+				n++
+				if ft, ok := cs.cl.dialFailUs[a]; !ok || ft >= t {
+					return false
+				}
+			}
+		}
+	}
+	return n > 0
+}
+
 // anyDown reports whether some broker is currently unreachable.
 func (cs *clientScen) anyDown() bool {
 	cs.cl.mu.Lock()
@@ -513,6 +532,9 @@ func (cs *clientScen) doOp(client sarama.Client, op *cf.Op) {
 					cls := "sequential"
 					if o.overlapped || cs.bg {
 						cls = "concurrent-calls"
+					}
+					if cs.everyCleanSeedFailedADialBefore(o.invokeUs, healthy) {
+						cls += ",every-clean-seed-failed-a-dial-earlier"
 					}
 					cs.r.violateClass("C15.refresh-failed-despite-live-broker", cls, "RefreshMetadata(%v) failed with %v although seed broker %s was reachable and fault-free during the whole call [%s]", op.Args, o.refreshErr, seed, cls)
 				}
